@@ -2,12 +2,14 @@ package persistence
 
 import (
 	"context"
+	"errors"
 	"fmt"
 	"net/http"
 	"time"
 
 	"github.com/oauth2-proxy/oauth2-proxy/v7/pkg/apis/options"
 	"github.com/oauth2-proxy/oauth2-proxy/v7/pkg/apis/sessions"
+	"github.com/oauth2-proxy/oauth2-proxy/v7/pkg/logger"
 )
 
 // Manager wraps a Store and handles the implementation details of the
@@ -35,6 +37,20 @@ func (m *Manager) Save(rw http.ResponseWriter, req *http.Request, s *sessions.Se
 	}
 
 	tckt, err := decodeTicketFromRequest(req, m.Options)
+	if err == nil && s.Lock == nil {
+		// A session that was loaded from the store carries the store's lock:
+		// saving it again (refresh) re-uses its ticket. A session without one
+		// has just been created by a login and must not adopt a ticket the
+		// browser brought along: whoever else knows that ticket (it may have
+		// been planted in this browser) would share the new session. Remove
+		// what the ticket refers to and continue with a fresh one.
+		if clearErr := tckt.clearSession(func(key string) error {
+			return m.Store.Clear(req.Context(), key)
+		}); clearErr != nil {
+			logger.Errorf("error removing the session of a superseded ticket: %v", clearErr)
+		}
+		err = errors.New("a new session does not re-use a presented ticket")
+	}
 	if err != nil {
 		tckt, err = newTicket(m.Options)
 		if err != nil {
